@@ -12,9 +12,11 @@ META = dict(
   level_note='Workers and the inner Clipper64 are recorders; path coordinates are concrete; only scalar parameters are symbolic. This is a mechanism-level claim about join-side/sign handling, not about geometry.',
   functions=['ClipperOffset::ExecuteInternal', 'ClipperOffset::DoGroupOffset', 'ClipperOffset::Group::Group', 'ClipperOffset::CheckReverseOrientation'],
   assumptions=['one or two groups of concrete small paths'],
-  outside=['all region/distance clauses', 'OffsetPoint join selection and DoRound/DoMiter/DoSquare/DoBevel geometry', 'negatively oriented (reversed) inputs'],
+  outside=['all region/distance clauses', 'OffsetPoint join selection and DoRound/DoMiter/DoSquare/DoBevel geometry'],
 )
 OBLIGATIONS = [
+  O('C06.c-polygon-rules-reversed-3', 'off_dispatch.cpp', 'harness_dispatch_rules', defs=['LEN1=3', 'REVERSED'], replace=OFFW, unwind=8, bound='one negatively oriented triangle (reversed convention), all deltas (inflate up to 1e6)', desc='a negatively oriented polygon group is offset with the negated delta and is never dropped when inflating'),
+  O('C06.c-polygon-rules-reversed-4', 'off_dispatch.cpp', 'harness_dispatch_rules', defs=['LEN1=4', 'REVERSED'], replace=OFFW, unwind=8, tiers='t', bound='one negatively oriented quadrilateral', desc='as above'),
   O('C06.c-orientation-bookkeeping', 'off_dispatch.cpp', 'harness_groups_independent', defs=['LEN0=3'], replace=BOTH, unwind=8, bound='two groups (triangle, triangle), all deltas / join / end types / flags', desc='signed delta reaches the Polygon worker; union = Positive fill, ReverseSolution and PreserveCollinear forwarded'),
   O('C06.d-tiny-delta', 'off_dispatch.cpp', 'harness_tiny_delta', replace=BOTH, unwind=8, bound='|delta| < 0.5, all join/end types', desc='no offsetting worker runs; the input paths go to the union unchanged'),
   O('C06.c-polygon-rules-4', 'off_dispatch.cpp', 'harness_dispatch_rules', defs=['LEN1=4'], replace=OFFW, unwind=8, bound='one 4-point polygon, all deltas', desc='Polygon end type: OffsetPolygon with group delta == delta'),
